@@ -608,6 +608,11 @@ fn features(r: &Req, body: &[u8]) -> Vec<&'static str> {
 
 pub fn run(ctx: &Ctx) -> (Acc, Report) {
     let mut acc = ctx.acc();
+    // histories first, single-threaded and in a fixed order (see authhist.rs)
+    let (hist_n, hist_steps) = {
+        use crate::props::authhist::Scheme;
+        crate::props::authhist::explore(&mut acc, "C05", &[Scheme::V4Header], 3)
+    };
     let bs = bases(ctx.tier);
     let n_bases = bs.len();
     let epoch = amz_date_to_epoch(DATE).unwrap();
@@ -686,7 +691,7 @@ pub fn run(ctx: &Ctx) -> (Acc, Report) {
         level: "exploration",
         rule: format!("{n_bases} honestly signed base requests (method x 17 paths x 11 query multisets x 10 signed-header shapes x payload/mode x HTTP/1.1|HTTP/2), each with every applicable single-component mutation (each signed header value/name/removal, each query pair, each path byte, method, each body byte, each signature digit, each scope field, dates, provider secret, signed-header list) and 6 canonical-equivalent rewrites; oracle = reference verifier on the same bytes. Distinct by (base, mutation) id; every evaluated case is non-trivial (it reaches signature comparison or a parse refusal)."),
         exhaustive: true,
-        extra: json!({"base_requests": n_bases, "quick_tier_note": "quick keeps grid points where at most one of (path, query, header-shape, http2) is beyond its first two values; thorough is the full product"}),
+        extra: json!({"histories": hist_n, "history_requests_executed": hist_steps, "history_rule": "all sequences of length 1..3 over 8 requests of this property's scheme(s) (two identities x honest / signed with the other identity's secret x two scopes) plus every pair led by a request of another scheme, on one service instance, single-threaded, fixed order; each verdict = the reference verdict of that request alone", "base_requests": n_bases, "quick_tier_note": "quick keeps grid points where at most one of (path, query, header-shape, http2) is beyond its first two values; thorough is the full product"}),
         assumptions: vec![
             "reference signer/verifier written from the AWS SigV4 specification; validated on the documentation vectors at start-up and against aws-sigv4 on every grid point (disagreeing points are excluded and counted)".into(),
             "HMAC/SHA collisions out of scope".into(),
